@@ -232,7 +232,7 @@ def names_with_first(first, lead, maxseg):
 def extra_names(base):
     """names that spell sentinel files explicitly"""
     out = []
-    prefixes = [""] + [s + "/" for s in SEGS] + [s1 + "/" + s2 + "/" for s1 in SEGS for s2 in SEGS]
+    prefixes = [""] + ["/".join(t) + "/" for k in (1, 2, 3) for t in itertools.product(SEGS, repeat=k)]
     for pre in prefixes:
         for lead in ("", "/"):
             out.append(lead + pre + "secret.txt")
